@@ -61,7 +61,8 @@ CLAIMS = {
    technique='Coq proof: translated next/prev stepping programs vs translated syntax-order tables (generic soundness lemma + finite vm_compute check), walk stack machines = structural orders; correspondence; navigation oracle',
    text='Proved (closed): for every regular node class and EVERY node shape the stepping function translated from traverse_next/prev.py returns the successor/predecessor in the '
         'child order translated from _SYNTAX_ORDERED_CHILDREN (compat_sound + C14_tables_compatible_and_complete re-checked on the regenerated tables every run); the walk stack '
-        'machines compute preorder / mirrored preorder (back) / postorder (leave) / bracketed order (both) / one-level filter for every tree and filter. Partial: the six '
+        'machines compute preorder / mirrored preorder (back) / postorder (leave) / bracketed order (both) / one-level filter for every tree and filter; the children of a Call / ClassDef head '
+        '(models/Interleave.v: args / bases merged with keywords by position) are both lists each once, in position order, and that order is unique. Partial: the stepping of the six '
         'position-interleaving classes, step_fwd/step_back and child_path are compared by correspondence/oracle only (walk set vs ast.walk, parent-first, sibling text order, '
         'all chains mutually consistent, paths bijective, filtered walks bracketed), the chains and stepping also under every `all` setting (True / False / loc / class / set) on a zoo of '
         'programs holding every combination of optional child groups (decorators x type parameters x argument kinds x bases x keywords ...).',
@@ -202,7 +203,7 @@ CLAIMS = {
         'counts on real trees are decided by the oracle: FST.subn vs a pure-AST reference for 16 scenarios x flat/nested on corpus and generated programs (C01, structure, counts, comments outside '
         'substituted nodes). Also proved (models/SubLoop.v, the driver loop over the match locations with count / loop / callback, tied by correspondence to the counts FST.subn reports): the reported '
         'pair is (locations substituted, substitutions performed) for every setting, every location takes at most what it can match and at most the same loop allowance, a count limit is respected. '
-        'Deterministic stages: statement templates, single vs slice slots of one template, __FSS_/__FSO_, loop with declining callbacks.',
+        'Deterministic stages: statement templates, single vs slice slots of one template, __FSS_/__FSO_, loop with declining callbacks. A capture written into a slot INSIDE a string constant of the template (models/SlotEscape.v over the literal scanners of models/StrRepr.v) reads back as the capture\'s source in single- and triple-quoted strings of either quote kind (3 theorems, tied to the text real sub() writes). Deterministic sweeps: slot modes, ctx=True, several-statement templates, spliced whole matches with nested, interleaved captures.',
    note='Trusted: Coq kernel/vm_compute; hand models Subst.v and SubLoop.v tied by correspondence; FST.match for the set of matching nodes (C17); ast.unparse/parse to decide that a reference result is a program. No axioms.',
    design='DESIGN.md section 4 C18'),
  'C19': dict(
